@@ -156,6 +156,10 @@ def universe(name, keys="plain"):
         loc = {k: _mk("s", ("item", K[k])) for k in "abcdx"}
         loc["f:total"] = _mk("f", ("attr", "total"))
         leaves = list("abcdx")
+    elif name == "U8":   # flat a, b, c with a linear knob (memory: the source value it saw last) next to pickling
+        loc = {k: _mk("s", ("item", K[k])) for k in "abc"}
+        loc["f:total"] = _mk("f", ("attr", "total"))
+        leaves = list("abc")
     elif name == "U7":   # flat a, c, d with a NESTED update: the task N1 assigns d through the manager from inside its action
         loc = {k: _mk("s", ("item", K[k])) for k in "acd"}
         loc["f:total"] = _mk("f", ("attr", "total"))
